@@ -68,13 +68,13 @@ static uint32_t need_of(int r)         /* outputs rank r consumes */
 }
 static int rel_of(int r) { return (r - root + NR) % NR; }
 
-/* ------------------------------------------------------------------ observations, indexed by relative position */
+/* ------------------------------------------------------------------ observations, indexed by receiving rank */
 static int      rx_cnt[NR];            /* activation messages received */
 static int      rx_from[NR];           /* sender of the last one */
 static uint32_t rx_omask[NR];          /* wire output_mask */
 static uint32_t rx_tpid[NR], rx_tcid[NR];/* wire taskpool / task class ids */
 static uint32_t rx_nsz[NR];            /* data_sizes[0] */
-static uint32_t rx_sz[NR][NOUT + 1];   /* data_sizes[1..] */
+static uint32_t rx_sz[NR][NOUT];       /* data_sizes[1..NOUT] */
 static uint32_t rx_eager[NR];          /* outputs whose payload was packed in the activation */
 static int      bad_peer;              /* a message was addressed outside 0..NR-1 or not forward */
 
@@ -132,18 +132,16 @@ static int stub_pack(parsec_comm_engine_t *ce, void *inbuf, int incount, parsec_
     for (int k = 0; k < NOUT; k++) if (type == DTT(k)) wire_eager |= 1u << k;
     *position += sz; return 0;
 }
-static void deliver(int peer, char *addr)
-{   /* delivers the activation to rank `peer`: the header as packed, the data_sizes[] words that
-       remote_dep_mpi_pack_dep wrote behind it, and the set of eagerly packed payloads */
-    if (peer < 0 || peer >= NR) { bad_peer = 1; wire_eager = 0; return; }
-    int rp = rel_of(peer);
-    if (rp <= rel_of(cur)) bad_peer = 1;
-    const uint32_t *ds = (const uint32_t *)((char *)addr + dep_count);
-    rx_cnt[rp]++; rx_from[rp] = cur; rx_omask[rp] = wire_omask;
-    rx_tpid[rp] = wire_tpid; rx_tcid[rp] = wire_tcid;
-    rx_nsz[rp] = ds[0];
-    for (int i = 0; i < NOUT; i++) rx_sz[rp][i] = ds[1 + i];
-    rx_eager[rp] = wire_eager; wire_eager = 0;
+static void deliver(int peer, int copies, char *addr)
+{   /* delivers the activation to rank `peer` (a concrete rank): the header as packed, the
+       data_sizes[] words that remote_dep_mpi_pack_dep wrote behind it, the eagerly packed set */
+    const uint32_t *ds = (const uint32_t *)(addr + dep_count);
+    if (rel_of(peer) <= rel_of(cur)) bad_peer = 1;
+    rx_cnt[peer] += copies; rx_from[peer] = cur; rx_omask[peer] = wire_omask;
+    rx_tpid[peer] = wire_tpid; rx_tcid[peer] = wire_tcid;
+    rx_nsz[peer] = ds[0];
+    for (int i = 0; i < NOUT; i++) rx_sz[peer][i] = ds[1 + i];
+    rx_eager[peer] = wire_eager; wire_eager = 0;
 }
 static struct parsec_remote_deps_s *vp_key2deps(uintptr_t key)
 {
@@ -154,26 +152,37 @@ static struct parsec_remote_deps_s *vp_key2deps(uintptr_t key)
     return &RD;
 #endif
 }
-/* what remote_dep_dequeue_send + remote_dep_nothread_send do for one activation when aggregation
- * is off (default): build the DEP_ACTIVATE command, pack it with the REAL remote_dep_mpi_pack_dep
- * into an empty DEP_SHORT_BUFFER_SIZE buffer, send it as an active message, and complete one
- * pending action of the deps */
-static int n_sends; static const dep_cmd_item_t zero_item;
+/* Send path.  remote_dep_dequeue_send() (funnelled MPI, the default) only pushes a DEP_ACTIVATE
+ * command on dep_cmd_queue; the communication thread later packs it with
+ * remote_dep_mpi_pack_dep(), sends it as an active message and completes one pending action of
+ * the deps (remote_dep_nothread_send, aggregation off = default).  The queue is modelled by a
+ * per-peer counter; comm_thread_drain() runs the REAL remote_dep_mpi_pack_dep once per peer with a
+ * queued command (commands for different peers are independent: pack_dep reads only the deps and
+ * the peer), into an empty DEP_SHORT_BUFFER_SIZE buffer. */
+static int q_cnt[NR]; static const dep_cmd_item_t zero_item;
 int remote_dep_dequeue_send(parsec_execution_stream_t *e, int rank, parsec_remote_deps_t *deps)
 {
-    (void)e; dep_cmd_item_t item;
-    uint32_t packed_words[(DEP_SHORT_BUFFER_SIZE + 3) / 4];   /* word-typed: pack_dep writes uint32 sizes into it */
-    char *packed_buffer = (char *)packed_words;
-    int position = 0;
-    item = zero_item;
-    item.action = DEP_ACTIVATE; item.priority = deps->max_priority;
-    item.cmd.activate.peer = rank; item.cmd.activate.task.source_deps = (remote_dep_datakey_t)deps;
-    n_sends++;
-    int rc = remote_dep_mpi_pack_dep(rank, &item, packed_buffer, DEP_SHORT_BUFFER_SIZE, &position);
-    VASSERTM(rc == 0, "an activation fits an empty short buffer");
-    deliver(rank, packed_buffer);
-    remote_dep_complete_and_cleanup(&deps, 1);
+    (void)e; (void)deps;
+    if (rank < 0 || rank >= NR) { bad_peer = 1; return 1; }
+    q_cnt[rank]++;
     return 1;
+}
+static void comm_thread_drain(void)
+{
+    for (int r = 0; r < NR; r++) {
+        if (q_cnt[r] == 0) continue;
+        dep_cmd_item_t item = zero_item;
+        uint32_t packed_words[(DEP_SHORT_BUFFER_SIZE + 3) / 4];   /* word-typed: pack_dep writes uint32 sizes into it */
+        int position = 0;
+        item.action = DEP_ACTIVATE; item.priority = RD.max_priority;
+        item.cmd.activate.peer = r; item.cmd.activate.task.source_deps = (remote_dep_datakey_t)&RD;
+        int rc = remote_dep_mpi_pack_dep(r, &item, (char *)packed_words, DEP_SHORT_BUFFER_SIZE, &position);
+        VASSERTM(rc == 0, "an activation fits an empty short buffer");
+        deliver(r, q_cnt[r], (char *)packed_words);
+        parsec_remote_deps_t *d = &RD;
+        remote_dep_complete_and_cleanup(&d, q_cnt[r]);
+        q_cnt[r] = 0;
+    }
 }
 static int stub_oms(parsec_taskpool_t *t, int dst, parsec_remote_deps_t *rd) { (void)t; (void)dst; (void)rd; return 1; }
 static int stub_omp(parsec_taskpool_t *t, int dst, char *b, int *p, int l) { (void)t; (void)dst; (void)b; (void)p; (void)l; return 0; }
@@ -348,36 +357,41 @@ int main(void)
     stub_iterate_successors(&es, &root_task, pmask, root_gather, &RD);
     VASSERTM(RD.outgoing_mask == pmask, "root: outgoing mask = outputs with remote destinations");
     parsec_remote_dep_activate(&es, &root_task, &RD, RD.outgoing_mask);
+    comm_thread_drain();
 
     /* ---- every other rank, in relay order */
     int hops2 = 0, differing = 0;
     for (int rl = 1; rl < NR; rl++) {
         int me = (root + rl) % NR; uint32_t need = need_of(me);
+        /* what this rank received (one symbolic-index read per field) */
+        int m_cnt = rx_cnt[me], m_from = rx_from[me]; uint32_t m_omask = rx_omask[me], m_tpid = rx_tpid[me], m_tcid = rx_tcid[me];
+        uint32_t m_nsz = rx_nsz[me], m_eager = rx_eager[me], m_sz[NOUT];
+        for (int i = 0; i < NOUT; i++) m_sz[i] = rx_sz[me][i];
         VASSERTM(!bad_peer, "activations are addressed to valid ranks further from the root than the sender");
-        if (!need) { VASSERTM(rx_cnt[rl] == 0, "a rank that consumes nothing receives no activation"); continue; }
-        VASSERTM(rx_cnt[rl] == 1, "a destination rank receives exactly one activation");
-        if (rx_cnt[rl] == 0) continue;
-        if (rx_from[rl] != root) hops2 = 1;
+        if (!need) { VASSERTM(m_cnt == 0, "a rank that consumes nothing receives no activation"); continue; }
+        VASSERTM(m_cnt == 1, "a destination rank receives exactly one activation");
+        if (m_cnt == 0) continue;
+        if (m_from != root) hops2 = 1;
         if (need != pmask) differing = 1;
         /* the listed payloads are exactly the outputs this rank consumes, in index order */
         { uint32_t n = 0; for (int k = 0; k < NOUT; k++) if (need & (1u << k)) { n++;
-              VASSERTM(rx_nsz[rl] >= n && rx_sz[rl][n - 1] == (uint32_t)out_size(k), "activation lists the payload of every consumed output, in order"); }
-          VASSERTM(rx_nsz[rl] == n, "activation lists no payload this rank does not consume"); }
+              VASSERTM(m_nsz >= n && m_sz[n - 1] == (uint32_t)out_size(k), "activation lists the payload of every consumed output, in order"); }
+          VASSERTM(m_nsz == n, "activation lists no payload this rank does not consume"); }
 #if SHORT == 0
-        VASSERTM(rx_eager[rl] == 0, "short limit 0: nothing is packed eagerly");
+        VASSERTM(m_eager == 0, "short limit 0: nothing is packed eagerly");
 #elif SHORT == 1
-        VASSERTM(rx_eager[rl] == need, "default short limit: every consumed (small) payload is packed in the activation");
+        VASSERTM(m_eager == need, "default short limit: every consumed (small) payload is packed in the activation");
 #else
-        VASSERTM(rx_eager[rl] == (need & ~2u), "the oversized output goes by rendezvous, the others eagerly");
+        VASSERTM(m_eager == (need & ~2u), "the oversized output goes by rendezvous, the others eagerly");
 #endif
         /* receiver: remote_dep_mpi_save_activate_cb up to remote_dep_get_datatypes */
         cur = me; ctx.my_rank = me;
         fresh_deps();
-        VASSERTM(rx_tpid[rl] == tp.taskpool_id && rx_tcid[rl] == tc.task_class_id, "the activation header names the producer's taskpool and task class");
-        RD.msg = zero_msg; RD.msg.output_mask = rx_omask[rl]; RD.msg.taskpool_id = tp.taskpool_id;
-        RD.msg.task_class_id = tc.task_class_id; RD.from = rx_from[rl];
-        uint32_t eager_words[NOUT + 1]; eager_words[0] = rx_nsz[rl];
-        for (int i = 0; i < NOUT; i++) eager_words[1 + i] = rx_sz[rl][i];
+        VASSERTM(m_tpid == tp.taskpool_id && m_tcid == tc.task_class_id, "the activation header names the producer's taskpool and task class");
+        RD.msg = zero_msg; RD.msg.output_mask = m_omask; RD.msg.taskpool_id = tp.taskpool_id;
+        RD.msg.task_class_id = tc.task_class_id; RD.from = m_from;
+        uint32_t eager_words[NOUT + 1]; eager_words[0] = m_nsz;
+        for (int i = 0; i < NOUT; i++) eager_words[1 + i] = m_sz[i];
         RD.eager_msg = eager_words;
         for (int k = 0; k < NOUT; k++) { rel_cnt[k] = 0; seen_size[k] = 0xdead; }
         int position = 0;
@@ -390,11 +404,12 @@ int main(void)
         /* payload arrival (remote_dep_mpi_recv_activate / get_end: data movement not modelled) */
         /* local release + propagation down the tree */
         remote_dep_release_incoming(&es, &RD, RD.incoming_mask);
+        comm_thread_drain();
         for (int k = 0; k < NOUT; k++)
             VASSERTM(rel_cnt[k] == ((need >> k) & 1), "each consumed output is released locally exactly once, no other output is");
     }
     VASSERTM(!bad_peer, "activations are addressed to valid ranks further from the root than the sender (last rank)");
-    VASSERTM(rx_cnt[0] == 0, "the root receives no activation");
+    VASSERTM(rx_cnt[root] == 0, "the root receives no activation");
 
 #if TOPO == 0
     if (differing && NR >= 3) VWITNESS("star: destination sets differ");
